@@ -179,6 +179,13 @@ EXPLORE.update({
            "one of 30 kinds of user error, (c) token-level mutations of family programs. Twelve defects found this way were "
            "repaired (fix: commits).",
 })
+EXPLORE.update({
+    "C19": "Run-time contract on findall/3 and all/3 over probabilistic goals through the real pipeline against exhaustive "
+           "possible-world enumeration (exact rationals): every reported result list has the total probability of the worlds "
+           "in which the ordered list of solutions (order of the facts in the program, template duplicates included) is that "
+           "list; all/3 has no answer in worlds without solutions. One known finding (order of the elements under negation, "
+           "the same class as C13's).",
+})
 FUNCTION_LEVEL = ("C11", "C13", "C14", "C18", "C17")
 FN_BOUNDED_TECH = ("run-time contract (pre/post-condition against an independent reference) on the real functions over a "
                    "bounded input family; the deductive contracts planned for these functions were not built, so nothing "
